@@ -351,7 +351,8 @@ func Main(t *testing.T) {
 		for _, f := range ff.Findings {
 			if f.Property == id {
 				findings = append(findings, f)
-				if f.Status == "open" {
+				// VERIF_LIFT=<key> lifts one exclusion (used by hand to hunt for a fresh witness of an open finding)
+				if f.Status == "open" && os.Getenv("VERIF_LIFT") != f.Key {
 					s.open[f.Key] = true
 				}
 			}
